@@ -110,7 +110,10 @@ class FakeSocket:
         pass
 
     def shutdown(self, how: int) -> None:
-        pass
+        # once the peer has closed / reset the connection (its FIN was read, is waiting to be read, or the conn says so) the kernel
+        # answers shutdown() with ENOTCONN - what a server does right after a bind_nak or a fault
+        if self.eof_reads or any(c is None or isinstance(c, BaseException) for c in self.chunks) or getattr(self.conn, "torn_down", False):
+            raise OSError(107, "Transport endpoint is not connected")
 
     def close(self) -> None:
         self.closed = True
